@@ -172,6 +172,21 @@ class Bounds:
         t = strip(t)
         while isinstance(t, tuple) and t[0] == 'cast':
             t = strip(t[1])
+        # the payload of an Option<[T; N]> (or a copy of it): opt.unwrap_or_else(|| DEFAULT), opt.unwrap(), .clone(), (opt as Some).0
+        for _ in range(4):
+            if isinstance(t, tuple) and t[0] == 'call' and len(t) >= 3 and cname(t[1]).split('::')[-1] in (
+                    'unwrap_or_else', 'unwrap_or', 'unwrap', 'expect', 'clone', 'copied', 'cloned', 'as_ref', 'unwrap_or_default'):
+                inner = strip(t[2])
+                while isinstance(inner, tuple) and inner[0] == 'cast':
+                    inner = strip(inner[1])
+                if isinstance(inner, tuple) and inner[0] in ('param', 'mparam', 'var', 'mutb'):
+                    l = inner[2] if inner[0] == 'var' else inner[1]
+                    m = re.match(r'^&?\s*(?:mut\s+)?(?:std::option::)?Option<\s*&?\s*\[(.*); (\d+)\]\s*>$', self.b.local_ty(l).strip())
+                    if m:
+                        return (int(m.group(2)), int(m.group(2)))
+                t = inner
+            else:
+                break
         if isinstance(t, tuple) and t[0] in ('var', 'mutb') or (isinstance(t, tuple) and t[0] in ('param', 'mparam')):
             l = t[2] if t[0] == 'var' else t[1]
             n = array_len_of_type(self.b.local_ty(l))
